@@ -161,7 +161,7 @@ func scenario(w *sim.World) {
 		runPBKVS(w, wd)
 	case 1:
 		// raftkvs: the bag network of the spec (any delivery order) in half of the runs
-		out := raftrun.Run(w, raftrun.Options{RecordTrace: true, MaxSteps: 200 + 150*w.Choose(sim.KCfg, 4), BagNetwork: w.Choose(sim.KCfg, 2) == 1, Small: true, Quick: quick()})
+		out := raftrun.Run(w, raftrun.Options{RecordTrace: true, NoFinalReads: true, MaxSteps: 200 + 150*w.Choose(sim.KCfg, 4), BagNetwork: w.Choose(sim.KCfg, 2) == 1, Small: true, Quick: quick()})
 		sys := out.R.TLCSystem(repoRoot)
 		w.Count("spec_steps_raftkvs", len(out.Trace.States)-1)
 		w.Count("spec_steps", len(out.Trace.States)-1)
